@@ -4,7 +4,7 @@ from vlib.gen import chance, pick
 from vlib.runner import reraise_if_timeout
 
 ID = "C03"
-CASES = {"quick": 6000, "thorough": 240000}
+CASES = {"quick": 3000, "thorough": 240000}
 SOFT = 40
 HARD = 240
 RULE = ("case = (grammar: zoo or random incl. wide alternatives and numeric nonterminals; closed derivation tree; "
